@@ -82,6 +82,10 @@ def cases(tier, seed, args):
                 kind = ['gcacgmm', 'cacgmm', 'vmfcacgmm', 'gmm'][(i // 2) % 4]
                 out.append(dict(t='perm_mm', kind=kind, L=[2] if kind in ml.INTEGRATION else [], K=3, D=3, N=int(rng.integers(16, 24)), wca=(-1,),
                                 iterations=[1, 3, 10][(i // 2) % 3], seed=int(rng.integers(1 << 30)), sam=False, saliency=False, regime='exacttie'))
+        # more than 8192 time-frequency points in one integration-model fit (only the parameters are compared)
+        for i in range(2 if q else 6):
+            out.append(dict(t='perm_mm', kind=['vmfcacgmm', 'gcacgmm'][i % 2], L=[[40], [33], [70]][i % 3], K=2 + (i // 2) % 2, D=3, N=[256, 300, 130][i % 3], wca=(-1,),
+                            iterations=2, seed=int(rng.integers(1 << 30)), sam=False, saliency=False, regime='regular', params_only=True))
         # hard start in which one class is empty (not the last one): its scatter is exactly zero in the first M-step
         for i in range(6 if q else 36):
             kind = ['cacgmm', 'gcacgmm', 'cacgmm', 'cacgmm', 'cacgmm', 'cwmm'][i % 6]   # (an empty vMF class has no mean: outside the domain)
@@ -161,6 +165,15 @@ def cases(tier, seed, args):
             out.append(dict(t='stack_dist', dist=['gauss_full', 'gauss_diagonal', 'gauss_spherical'][i % 3], fn=['fit', 'log_pdf'][(i // 3) % 2],
                             L=[[3], [2, 2], [4]][(i // 6) % 3], D=1 if i < 6 or i % 2 else 2, N=int(rng.integers(8, 16)), seed=2 * int(rng.integers(1 << 29)),
                             saliency=bool(i % 4 == 0), degenerate_slice=False, degenerate_member=bool(i >= 6), layout='C'))
+        # stacks with more than 16 members / concentrations in one call (vectorised look-ups over the whole stack)
+        for i in range(6 if q else 24):
+            out.append(dict(t='stack_dist', dist=['watson', 'vmf', 'bingham'][i % 3], fn=['fit', 'log_pdf'][(i // 3) % 2], L=[[4, 5], [3, 3, 2], [18]][i % 3],
+                            D=int(rng.integers(2, 4)), N=int(rng.integers(8, 16)), seed=2 * int(rng.integers(1 << 29)), saliency=bool(i % 2),
+                            degenerate_slice=False))
+        for i in range(3 if q else 12):
+            out.append(dict(t='stack_mm', kind=['cwmm', 'vmfmm', 'cwmm'][i % 3], L=[[3, 3], [9], [2, 5]][i % 3], K=2, D=3, N=int(rng.integers(12, 20)),
+                            iterations=1 + i % 2, seed=2 * int(rng.integers(1 << 29)), covariance_type='full', singleton_init=False,
+                            degenerate_slice=False, covariance_norm='eigenvalue', rank_deficient=False, saliency=bool(i % 2)))
         # cACG fixed-point iteration: every normalisation x several iteration counts on stacks of different slices
         for i in range(6 if q else 36):
             out.append(dict(t='stack_dist', dist='cacg', fn=['fit', 'log_pdf'][i % 2], L=[[2], [3], [2, 2]][(i // 2) % 3],
@@ -228,8 +241,8 @@ def _gain_mm(case):
     trainer_b = ml.trainer_for(kind, **tkw)
     if case.get('reuse'):
         # history: the trainer used for run B has fitted other data before
-        call(ml.fit, kind, data, init, 1, opts, trainer=trainer_b)
-    ma, ea = call(ml.fit, kind, data, init, case['iterations'], opts)
+        _cfit(kind, data, init, 1, opts, trainer=trainer_b)
+    ma, ea = _cfit(kind, data, init, case['iterations'], opts)
     if ((case['seed'] // 3) % 2 or (kind in ml.INTEGRATION + ('cbmm', 'cwmm') and case['seed'] % 2)) and not single:
         # run B gets its observations as a permuted-axes view of a (D, ..., N) buffer (how STFT code usually hands them over)
         yv = data_b['y']
@@ -237,7 +250,7 @@ def _gain_mm(case):
             data_b = dict(data_b, y=np.ascontiguousarray(np.moveaxis(yv, -1, 0)).transpose(*range(1, yv.ndim), 0))
         else:
             data_b = dict(data_b, y=np.asfortranarray(yv))       # e.g. a (D, T, F) STFT seen through .transpose(2, 1, 0)
-    mb, eb = call(ml.fit, kind, data_b, init, case['iterations'], opts, trainer=trainer_b)
+    mb, eb = _cfit(kind, data_b, init, case['iterations'], opts, trainer=trainer_b)
     fp = f't=gain_mm;model={kind};wca={case["wca"]};reuse={case.get("reuse")};dim_given={case.get("dim_given")};single={single}'
     key = f'gain:{case["seed"]}'
     if ma is None or mb is None:
@@ -279,7 +292,7 @@ def _gain_mm(case):
             recs.append(ml.twin_record('same', None, None, kind=kind, wca=case['wca'], exc=e6, fp=fp + f';predict_only;layout={lay}', key=key + ':po'))
     if case['seed'] % 2 and pa is not None:
         # the one-call entry point: fit_predict on the scaled data against fit + predict on the original
-        pfp, e5 = call(ml.fit, kind, data_b, init, case['iterations'], opts, ml.trainer_for(kind, **tkw), True)
+        pfp, e5 = _cfit(kind, data_b, init, case['iterations'], opts, ml.trainer_for(kind, **tkw), True)
         if isinstance(pfp, tuple):
             pfp = pfp[-1]
         recs.append(ml.twin_record('same', [ml._field('posterior', pa)], [ml._field('posterior', pfp)] if pfp is not None else None,
@@ -404,14 +417,14 @@ def _perm_mm(case):
     pi = list(perms[int(rng.integers(1, len(perms)))])
     # one trainer object for both runs (every other case): a trainer keeps no state between fits
     shared = ml.trainer_for(kind) if case['seed'] % 2 else None
-    ma, ea = call(ml.fit, kind, data, init, case['iterations'], opts, shared)
+    ma, ea = _cfit(kind, data, init, case['iterations'], opts, shared)
     opts_b = dict(opts)
     if sam is not None:
         opts_b['source_activity_mask'] = np.ascontiguousarray(sam[..., pi, :])
     init_b = np.ascontiguousarray(init[..., pi, :])
     if case.get('init_dtype'):
         init_b = init_b.astype(case['init_dtype'])
-    mb, eb = call(ml.fit, kind, data, init_b, case['iterations'], opts_b, shared)
+    mb, eb = _cfit(kind, data, init_b, case['iterations'], opts_b, shared)
     fp = f't=perm_mm;model={kind};wca={case["wca"]};it={case["iterations"]};sam={case.get("sam")};regime={regime};inline_pa={bool(case.get("inline_pa"))}' \
          f';shared_trainer={shared is not None};init_dtype={case.get("init_dtype")}'
     key = f'perm:{case["seed"]}'
@@ -422,6 +435,9 @@ def _perm_mm(case):
                                exc='' if both else (ea or eb), exc_clause='label_dependent_failure', fp=fp, key=key)] if not both else []
     pa, e1 = call(ml.predict, kind, ma, data)
     pb, e2 = call(ml.predict, kind, mb, data)
+    if case.get('params_only'):
+        pa = pb = None
+        e1 = e2 = ''
     A = ml.model_fields(kind, ma, posterior=pa)
     B = ml.model_fields(kind, mb, posterior=pb)
     raw = None if (pa is None or pb is None) else (ml.model_arrays(kind, ma, posterior=pa), ml.model_arrays(kind, mb, posterior=pb))
@@ -429,13 +445,13 @@ def _perm_mm(case):
     if case['iterations'] > 3 and raw is not None:
         # rounding amplification of THIS run: the same labels, initialisation perturbed by one ulp (relative 2^-52)
         init_p = init * (1.0 + 2.0 ** -52 * rng.choice([-1.0, 1.0], size=init.shape))
-        mp_, ep = call(ml.fit, kind, data, init_p, case['iterations'], opts)
+        mp_, ep = _cfit(kind, data, init_p, case['iterations'], opts)
         pp, e3 = (None, '') if mp_ is None else call(ml.predict, kind, mp_, data)
         if pp is not None:
             amp = [float(np.max(np.abs(np.asarray(x) - np.asarray(y_))) if np.size(x) else 0.0)
                    for x, y_ in zip(raw[0], ml.model_arrays(kind, mp_, posterior=pp))]
     return [ml.twin_record('perm', A, B, kind=kind, wca=case['wca'], pi=pi, exc=e1 or e2, fp=fp, key=key,
-                           slack=2048 if kind == 'cbmm' else 256, fine=-18 if kind == 'cbmm' else -20, raw=raw, amp=amp)]
+                           slack=2048 if kind == 'cbmm' else 256, fine=0 if raw is None else (-18 if kind == 'cbmm' else -20), raw=raw, amp=amp)]
 
 
 def _stack_mm(case):
@@ -488,7 +504,7 @@ def _stack_mm(case):
         # calls below get plain C-ordered slices
         data_s = {k: np.asfortranarray(v) for k, v in data.items()}
         init_arg = np.asfortranarray(init_arg)
-    ms, es = call(ml.fit, kind, data_s, init_arg, case['iterations'], dict(opts, **({'saliency': sal} if sal is not None else {})))
+    ms, es = _cfit(kind, data_s, init_arg, case['iterations'], dict(opts, **({'saliency': sal} if sal is not None else {})))
     fp = f't=stack_mm;model={kind};lead={len(L)};cov={case["covariance_type"] if kind == "gmm" else ""};' \
          f'singleton_init={bool(case.get("singleton_init"))};layout={"F" if data_s is not data else "C"};sal={sal is not None}'
     recs = []
@@ -502,7 +518,7 @@ def _stack_mm(case):
     for idx in idxs[:3]:
         d1 = {k: np.ascontiguousarray(v[idx]) for k, v in data.items()}
         opts1 = dict(opts, **({'saliency': np.ascontiguousarray(sal[idx])} if sal is not None else {}))
-        m1, e1 = call(ml.fit, kind, d1, np.ascontiguousarray(init[idx]), case['iterations'], opts1)
+        m1, e1 = _cfit(kind, d1, np.ascontiguousarray(init[idx]), case['iterations'], opts1)
         key = f'stack:{case["seed"]}:{idx}'
         if m1 is None:
             continue                      # the slice alone fails as well: not a stacking issue
@@ -518,7 +534,7 @@ def _stack_mm(case):
             # slice (the same fit with data and initialisation moved by one ulp)
             raw = (ml.model_arrays(kind, ms, posterior=ps), ml.model_arrays(kind, m1, posterior=p1))
             dp = {k: ml.ulp_perturb(rng, v) for k, v in d1.items()}
-            mp_, _ = call(ml.fit, kind, dp, ml.ulp_perturb(rng, np.ascontiguousarray(init[idx])), case['iterations'], opts1)
+            mp_, _ = _cfit(kind, dp, ml.ulp_perturb(rng, np.ascontiguousarray(init[idx])), case['iterations'], opts1)
             pp, _ = (None, '') if mp_ is None else call(ml.predict, kind, mp_, dp)
             if pp is not None:
                 amp = ml.amp_of(raw[1], ml.model_arrays(kind, mp_, posterior=pp))
@@ -625,7 +641,7 @@ def _stack_params(case):
     models = []
     for j in range(case['n']):
         data = ml.make_data(rng, kind, [], K, D, N, regime='separable')
-        m, e = call(ml.fit, kind, data, ml.make_init(rng, [], K, N), 2, {})
+        m, e = _cfit(kind, data, ml.make_init(rng, [], K, N), 2, {})
         if m is None:
             return []
         models.append(m)
@@ -647,7 +663,36 @@ def _stack_params(case):
     return recs
 
 
+MUTATED = []
+
+
+def _cfit(kind, data, init, iterations, opts=None, *a, **kw):
+    """ml.fit with the caller's arrays snapshotted: a fit that writes into its inputs is recorded (and the inputs restored, so
+    that the twin comparison - and the measured rounding amplification - still compare what they are meant to)"""
+    held = [v for v in list(data.values()) + [init] + [(opts or {}).get(k) for k in ('saliency', 'source_activity_mask')]
+            if isinstance(v, np.ndarray)]
+    snaps = [v.copy() for v in held]
+    res = call(ml.fit, kind, data, init, iterations, opts, *a, **kw)
+    for v, c in zip(held, snaps):
+        if not np.array_equal(v, c, equal_nan=True):
+            MUTATED.append(f'model={kind}')
+            try:
+                v[...] = c
+            except ValueError:
+                pass
+    return res
+
+
 def run_case(case):
+    del MUTATED[:]
+    recs = _run_case(case)
+    if MUTATED:
+        recs.append(ml.twin_record('slice', None, None, kind=case.get('kind', 'gmm'), exc='InputMutated', exc_clause='input_untouched',
+                                   fp=f't={case["t"]};{MUTATED[0]};input_mutated', key=f'mut:{case["seed"]}'))
+    return recs
+
+
+def _run_case(case):
     if case['t'] == 'stack_params':
         return _stack_params(case)
     return dict(gain_mm=_gain_mm, gain_dist=_gain_dist, perm_mm=_perm_mm, stack_mm=_stack_mm,
